@@ -28,7 +28,9 @@ RULE = (
     'an offset) x 1-3 tracers (ids 1-999, per-tracer layer counts 1-4 or 47,'
     ' scale factors from {1, 1e9, 1e6, 1e-3, 2.5, ...} rendered E10.3, units),'
     ' grid 1-5 x 1-4 cells, nested-grid offsets I0/J0/L0, grid header '
-    'variants, tau0/tau1 float64 hours (whole, halves, k/3 k/6 k/60 h '
+    'variants, individual window origins per tracer, file type / title / '
+    'block unit / reserved text with leading, inner and trailing blanks '
+    '(presented and re-written verbatim), tau0/tau1 float64 hours (whole, halves, k/3 k/6 k/60 h '
     'series and arbitrary doubles at 1e5..3e5 h), tracerinfo/diaginfo tables with decoy rows, with/without '
     'comment headers; REAL*4 payload either arbitrary bit patterns (NaN, inf,'
     ' denormal, -0.0) or exactly representable k*2^e values.  Files are '
@@ -99,7 +101,16 @@ SCALE_TEXTS = ['-2.500E+00', '1.2345E+03', '1000000000', '1.0000E+09',
 UNITS = ['ppbv', 'ppbC', 'v/v', 'molec/cm2/s', 'kg', 'unitless', 'hPa', 'K',
          'kg/m3', 'atoms C/cm2/s', 'cm/s', 'ug/m3', 'mol/mol', 'm']
 HUNITS = ['v/v', 'molec/cm2/s', 'kg', 'unitless', 'hPa', 'K', 'kg/m2/s',
-          'cm/s', 'm', 'ppbv']
+          'cm/s', 'm', 'ppbv',
+          # fixed-width text the format keeps verbatim: leading / inner blanks
+          ' v/v', 'kg / m2 / s', '  unitless', 'molec cm-2 s-1']
+RESERVED = ['', '', '', ' 144  91  47', 'x', '   centred   ']
+FTYPES = ['CTM bin 02', 'CTM bin 02', '  CTM bin 02', 'CTM bin 4D',
+          ' CTM  bin  02 ']
+TITLES = ['GEOS-CHEM binary punch file v. 2.0',
+          'GEOS-CHEM diag49 instantaneous timeseries', '',
+          '                     GEOS-CHEM binary punch file v. 2.0',
+          '   GEOS-CHEM   ADJOINT   output   ', ' x']
 MODELS = [('GEOS5_47L', [2.5, 2.0]), ('GEOS5_47L', [5.0, 4.0]),
           ('GEOS4_30L', [2.5, 2.0]), ('GEOS57_47L', [0.625, 0.5]),
           ('MERRA_47L', [0.6666666865348816, 0.5]), ('GEOSFP_47L', [5.0, 4.0])]
@@ -230,6 +241,21 @@ def cases(draw, tier='quick'):
                  draw(st.sampled_from([1, 1, 1, 2, 5]))]
     else:
         start = [1, 1, 1]
+    # diagnostics on sub-domains: individual window origins per tracer (the
+    # extent stays common), and a reserved text per block
+    if nested and draw(st.sampled_from([False, True])):
+        for c in cats:
+            for tr in c['tracers']:
+                if draw(st.sampled_from([True, True, False])):
+                    tr['start'] = [draw(st.integers(1, 60)),
+                                   draw(st.integers(1, 40)),
+                                   draw(st.sampled_from([1, 1, 2, 5]))]
+    if draw(st.sampled_from([False, False, False, False, True])):
+        for c in cats:
+            for tr in c['tracers']:
+                rs = draw(st.sampled_from(RESERVED))
+                if rs:
+                    tr['reserved'] = rs
     # tau: float64 hours since 1985 - whole hours, halves, and block
     # boundaries of 20-/10-/1-minute series (k/3, k/6, k/60 h, not
     # representable in binary) at realistic magnitudes, or any double
@@ -289,9 +315,8 @@ def cases(draw, tier='quick'):
                 times=times, cats=cats, table=table, diag_extra=diag_extra,
                 comments=draw(st.sampled_from([True] * 7 + [False])),
                 mode=mode, data=data, front=front, swap=swap,
-                title=draw(st.sampled_from(
-                    ['GEOS-CHEM binary punch file v. 2.0',
-                     'GEOS-CHEM diag49 instantaneous timeseries', ''])))
+                ftype=draw(st.sampled_from(FTYPES)),
+                title=draw(st.sampled_from(TITLES)))
 
 
 def strategy(tier):
@@ -369,9 +394,9 @@ def blocks_of(spec):
                     modelname=spec['modelname'], res=spec['res'],
                     halfpolar=spec['halfpolar'], center180=spec['center180'],
                     category=c['name'], tracer=tid, unit=tr['hunit'],
-                    tau0=t0, tau1=t1, reserved='',
+                    tau0=t0, tau1=t1, reserved=tr.get('reserved', ''),
                     dim=[spec['ni'], spec['nj'], tr['nl']],
-                    start=spec['start'],
+                    start=tr.get('start', spec['start']),
                     data=binascii.unhexlify(spec['data'][k])))
                 k += 1
                 pos += 1
@@ -393,7 +418,7 @@ def eff_row(spec, c, tr):
     if row is not None:
         return row
     bare = table_row(spec, tr['id'])
-    return dict(bare, scale=1.0, unit=tr['hunit'], scale_text=None,
+    return dict(bare, scale=1.0, unit=tr['hunit'].strip(), scale_text=None,
                 tracer=tr['id'] + c['offset'], fallback=True,
                 bare_scale=bare['scale'])
 
@@ -414,7 +439,9 @@ def variables_of(spec):
                     tr['nl'], spec['nj'], spec['ni']))
             out.append(dict(key='%s_%s' % (c['name'], row['name']),
                             cat=c['name'], id=tr['id'], nl=tr['nl'], row=row,
-                            hunit=tr['hunit'], raw=np.array(arrs)))
+                            hunit=tr['hunit'], raw=np.array(arrs),
+                            start=list(tr.get('start', spec['start'])),
+                            reserved=tr.get('reserved', '')))
             k += 1
     swap = spec.get('swap')
     if swap:
@@ -433,7 +460,8 @@ def variables_of(spec):
 def write_inputs(spec, d):
     os.makedirs(d, exist_ok=True)
     path = os.path.join(d, 'in.bpch')
-    buf = B.encode(dict(ftype='CTM bin 02', title=spec['title'],
+    buf = B.encode(dict(ftype=spec.get('ftype', 'CTM bin 02'),
+                        title=spec['title'],
                         blocks=blocks_of(spec)))
     with open(path, 'wb') as fo:
         fo.write(buf)
@@ -598,6 +626,15 @@ known.register(
     '-scaled' in f.clause and 'raw x 1.0' in f.detail)
 
 
+known.register(
+    'C18-bpch2-reserved-dropped',
+    lambda spec, f: any(tr.get('reserved', '').strip()
+                        for c in spec['cats'] for tr in c['tracers']) and
+    ((f.clause == 'bpch2-rewrite-bytes' and
+      'first difference at byte' in f.detail) or
+     f.clause in ('bpch2-written-reserved', 'front-reserved')))
+
+
 # ------------------------------------------------------------------ oracle
 def check_tracer_vars(r, f, exp, clause, scaled, who, bits_mode):
     """names / shapes / values / identifying attributes of the tracer
@@ -659,6 +696,15 @@ def check_case(spec):
         r.label('layers-differ')
     if nested:
         r.label('nested-offset')
+    if len(set(tuple(e['start']) for e in exp)) > 1:
+        r.label('windows-differ-per-tracer')
+    if spec.get('ftype', 'CTM bin 02') != spec.get('ftype', 'CTM bin 02'
+                                                   ).strip() or \
+            spec['title'] != spec['title'].strip():
+        r.label('title-blanks-at-ends')
+    if any(e['hunit'] != e['hunit'].strip() or e['reserved']
+           for e in exp):
+        r.label('block-text-verbatim')
     if scaled_any:
         r.label('scale!=1')
     offs = [c['offset'] for c in spec['cats']]
@@ -759,6 +805,7 @@ def check_case(spec):
             good = check_tracer_vars(r, g0, exp, 'bpch2-noscale', False,
                                      'bpch2(noscale)', False)
             check_tau(r, g0, spec, 'bpch2-noscale', with_time=True)
+            check_titles(r, g0, spec, 'bpch2-noscale')
             if good:
                 wok, opath = write_checked(
                     r, g0, keys, os.path.join(base, 'out2'),
@@ -969,6 +1016,25 @@ def check_tau(r, f, spec, clause, with_time=False):
                    '[tau0, tau1] = %r' % (tv.tolist(), pairs.tolist()))
 
 
+def _verbatim(v):
+    """fixed-width text as stored: only the padding on the right is
+    dropped"""
+    if isinstance(v, bytes):
+        v = v.decode('latin1')
+    return str(v).rstrip()
+
+
+def check_titles(r, f, spec, clause):
+    """file type and title records are presented verbatim (leading and
+    inner blanks kept)"""
+    for attr, want in (('ftype', spec.get('ftype', 'CTM bin 02')),
+                       ('toptitle', spec['title'])):
+        got = getattr(f, attr, None)
+        if got is None or _verbatim(got) != want.rstrip():
+            r.fail(clause + '-' + attr, '%s %r, the file holds %r' % (
+                attr, got, want))
+
+
 def check_meta(r, f, spec, exp, clause):
     check_tau(r, f, spec, clause)
     for e in exp:
@@ -981,14 +1047,18 @@ def check_meta(r, f, spec, exp, clause):
         if _s(getattr(v, 'category', '')) != e['cat']:
             r.fail(clause + '-category', '%s: category %r, expected %r' %
                    (e['key'], getattr(v, 'category', None), e['cat']))
-        if _s(getattr(v, 'base_units', '')) != e['hunit']:
+        if _verbatim(getattr(v, 'base_units', '')) != e['hunit'].rstrip():
             r.fail(clause + '-baseunit', '%s: base_units %r, expected %r' %
                    (e['key'], getattr(v, 'base_units', None), e['hunit']))
+        if _verbatim(getattr(v, 'reserved', '')) != e['reserved'].rstrip():
+            r.fail(clause + '-reserved', '%s: reserved %r, expected %r' %
+                   (e['key'], getattr(v, 'reserved', None), e['reserved']))
         st_ = [int(getattr(v, k, 0)) + 1 for k in
                ('STARTI', 'STARTJ', 'STARTK')]
-        if st_ != list(spec['start']):
+        if st_ != e['start']:
             r.fail(clause + '-start', '%s: STARTI/J/K+1 = %r, header says %r'
-                   % (e['key'], st_, spec['start']))
+                   % (e['key'], st_, e['start']))
+    check_titles(r, f, spec, clause)
     if _s(getattr(f, 'modelname', '')) != spec['modelname']:
         r.fail(clause + '-grid', 'modelname %r' % (getattr(f, 'modelname',
                                                             None),))
@@ -1029,9 +1099,9 @@ def check_written(r, spec, exp, opath, tag='written'):
         r.fail(tag + '-blocks', 'writer produced %d data blocks, expected '
                '%d' % (len(dec['blocks']), len(want)))
         return
-    if dec['ftype'].strip() != 'CTM bin 02':
+    if dec['ftype'].rstrip() != spec.get('ftype', 'CTM bin 02').rstrip():
         r.fail(tag + '-header', 'ftype %r' % dec['ftype'])
-    if dec['title'].strip() != spec['title'].strip():
+    if dec['title'].rstrip() != spec['title'].rstrip():
         r.fail(tag + '-header', 'title %r, expected %r' % (dec['title'],
                                                              spec['title']))
     per = len(exp)
@@ -1042,8 +1112,12 @@ def check_written(r, spec, exp, opath, tag='written'):
             if g[k] != w[k]:
                 r.fail(tag + '-' + k, 'block %d: %s = %r, expected %r' %
                        (i, k, g[k], w[k]))
-        for k in ('category', 'modelname', 'unit'):
+        for k in ('category', 'modelname'):
             if g[k].strip() != w[k].strip():
+                r.fail(tag + '-' + k, 'block %d: %s = %r, expected %r' %
+                       (i, k, g[k], w[k]))
+        for k in ('unit', 'reserved'):
+            if g[k].rstrip() != w[k].rstrip():
                 r.fail(tag + '-' + k, 'block %d: %s = %r, expected %r' %
                        (i, k, g[k], w[k]))
         if [B.f32(x) for x in w['res']] != g['res']:
@@ -1083,6 +1157,11 @@ def check_reread(r, spec, exp, f1, f2):
             r.fail('reread-values', '%s: values after write/read %s, before '
                    '%s' % (e['key'], arrs[1].ravel()[:8],
                            arrs[0].ravel()[:8]))
+        st_ = [int(getattr(b, k, 0)) + 1 for k in
+               ('STARTI', 'STARTJ', 'STARTK')]
+        if st_ != e['start']:
+            r.fail('reread-start', '%s: STARTI/J/K+1 = %r after write/read, '
+                   'the file had %r' % (e['key'], st_, e['start']))
         if int(getattr(b, 'tracerid', -1)) != e['id'] or \
                 _s(getattr(b, 'category', '')) != e['cat']:
             r.fail('reread-ids', '%s: tracerid/category %r %r' % (
